@@ -245,6 +245,7 @@ func newState(c Cfg) *core.BuildState {
 	} else {
 		cfg.Remote.URL = ""
 	}
+	cfg.Build.HashCheckers = nil // the C10 model's context has no hash checkers
 	cfg.Sandbox.Dir = c.SandboxDirs
 	cfg.Bazel.Compatibility = c.Bazel
 	// one BuildState, a fresh Configuration per call (NewBuildState is expensive; nothing it sets up is read here)
@@ -699,6 +700,7 @@ func mainC10() {
 	systemFileTools = true
 	executor = process.New()
 	state = core.NewDefaultBuildState()
+	probeSpec()
 	if ops := r.ReplayOps(); ops != nil {
 		for _, op := range ops {
 			runOp(r, op)
